@@ -317,9 +317,25 @@ def place(placement, l, r):
 PLACEMENTS = ["proxy-left", "proxy-right", "both"]
 
 
+INFIX_SYMBOL = {"__add__": "+", "__sub__": "-", "__mul__": "*", "__matmul__": "@", "__truediv__": "/",
+                "__floordiv__": "//", "__mod__": "%", "__pow__": "**", "__lshift__": "<<", "__rshift__": ">>",
+                "__and__": "&", "__xor__": "^", "__or__": "|", "__lt__": "<", "__le__": "<=", "__gt__": ">",
+                "__ge__": ">=", "__eq__": "==", "__ne__": "!="}
+_INFIX_CACHE = {}
+
+
+def infix_function(op):
+    """The operator written as source text (`a + b`) rather than through the operator module."""
+    if op not in _INFIX_CACHE:
+        _INFIX_CACHE[op] = eval("lambda a, b: a %s b" % INFIX_SYMBOL[op]) if op in INFIX_SYMBOL else BINARY[op][1]
+    return _INFIX_CACHE[op]
+
+
 def case_function(case):
     fam, op = case["family"], case["op"]
     if fam in ("binary", "comparison"):
+        if case.get("spelling") == "infix":
+            return infix_function(op)
         return BINARY[op][1]
     if fam in ("unary", "conversion"):
         return CONV[op][0]
